@@ -194,8 +194,41 @@ def run(ctx):
                                           shards=ctx.pick(6, 8), name="tlcs", timeout=3000)
     rejected_lines = set()
     order = sorted(rej, key=lambda r: (len(json.dumps(events[r["line"] - 1])), r["line"]))   # smallest scenario first
+    # A rejected scripted scenario is executed once more on its own before it counts: the verdict has to be a
+    # reproducible behaviour of the real code (one 'unexpected EOF' on a well-formed archive was seen once in
+    # 5,800 scenarios on a heavily loaded machine and never again).
+    unconfirmed = set()
+    local = {}
+    cnt = {}
+    for i, o in enumerate(origin):
+        local[i] = cnt.get(o, 0)
+        cnt[o] = local[i] + 1
+    by_driver = {}
+    for r in rej:
+        o = origin[r["line"] - 1]
+        if o in ("dirreplay", "archreplay") and events[r["line"] - 1]["ev"] != "glob":
+            by_driver.setdefault(o, []).append(r["line"] - 1)
+    for name, binp, run_, env, scripts, mode in runs:
+        idxs = sorted(set(by_driver.get(name, [])))[:40]
+        if not idxs or scripts is None:
+            continue
+        sub = ctx.path("confirm_%s.ndjson" % name)
+        vk.write_ndjson(sub, [scripts[local[i]] for i in idxs])
+        t2 = ctx.path("trace_confirm_%s.ndjson" % name)
+        rc, out = ctx.run_bin(binp, run_, env=dict(env, VERIF_IN=sub, VERIF_OUT=t2), timeout=3000)
+        if rc != 0 or "--- PASS" not in out:
+            continue            # cannot confirm: keep the first observation
+        again = vk.read_ndjson(t2)
+        for i, e2 in zip(idxs, again):
+            if e2.get("out") != events[i].get("out"):
+                unconfirmed.add(i + 1)
+    if unconfirmed:
+        ctx.notes.append("%d rejected scripted scenario(s) behaved differently when executed again on their own and are "
+                         "not reported (first observation not reproducible): lines %s" % (len(unconfirmed), sorted(unconfirmed)[:10]))
     for r in order:
         e = events[r["line"] - 1]
+        if r["line"] in unconfirmed:
+            continue
         rejected_lines.add(r["line"])
         if e["ev"] == "glob":
             sig = "C15:" + r["why"]
